@@ -9,7 +9,7 @@ use refimpl::ntlm;
 use serde::{Deserialize, Serialize};
 
 pub const LEVEL: &str = "fault_enumeration";
-pub const RULE: &str = "case = (credential set and connector configuration with NLA on, server certificate key in {RSA-2048 CA-signed, RSA-2048, RSA-3072, P-256}, reply strategy for the final CredSSP round). Strategies: honest; every single-bit flip of the honest TSRequest (bitflips section: every bit for the P-256 key and every third bit for RSA-2048 in quick, every bit for all four keys in thorough); key + k for k in {0, 2, 255, 256, 65536, ...}, key - 1, big-endian + 1, + 1 on the last byte; sealed under an unknown session key; sealed with the client-to-server keys; wrong signing key only; key + 1 of another certificate; the client's own token reflected; every truncation length; bytes appended inside the token / after the DER; BER re-encoding; advanced cipher state; wrong sequence number; garbage; random token; key + 1 followed or preceded by extra bytes under a valid seal; constant ('dummy') checksum; ciphertext of another certificate's key + 1 obtained by xor with a zeroed checksum. With the CA-signed identity certificate checking is switched on in most cases (a validated certificate does not replace the key binding). One case in five (and a list in the enumerated section) uses a CHALLENGE that lacks some of the flags the client asked for (SIGN, SEAL, KEY_EXCH, ALWAYS_SIGN, ESS, 128 ...): the client may refuse it early, but must not release credentials without the proof. Each reply is classified by the reference server itself (lenient decode + unseal with the true keys): if it still yields key + 1 under a valid signature nothing is asserted; otherwise Connector::connect must return Err and the server, reading to EOF, must receive zero application bytes after the AUTHENTICATE message. For the honest reply the next message must be a TSRequest whose authInfo unseals. Non-trivial = the handshake reached the final round and the reply is not 'still honest'; distinct by hash of the case.";
+pub const RULE: &str = "case = (credential set and connector configuration with NLA on, server certificate key in {RSA-2048 CA-signed, RSA-2048, RSA-3072, P-256}, reply strategy for the final CredSSP round). Strategies: honest; every single-bit flip of the honest TSRequest (bitflips section: every bit for the P-256 key and every third bit for RSA-2048 in quick, every bit for all four keys in thorough); key + k for k in {0, 2, 255, 256, 65536, ...}, key - 1, big-endian + 1, + 1 on the last byte; sealed under an unknown session key; sealed with the client-to-server keys; wrong signing key only; key + 1 of another certificate; the client's own token reflected; every truncation length; bytes appended inside the token / after the DER; BER re-encoding; advanced cipher state; wrong sequence number; garbage; random token; key + 1 followed or preceded by extra bytes under a valid seal; the same xor mask applied at two positions 1..128 bytes apart (differences that cancel under a folded comparison); constant ('dummy') checksum; ciphertext of another certificate's key + 1 obtained by xor with a zeroed checksum. With the CA-signed identity certificate checking is switched on in most cases (a validated certificate does not replace the key binding). One case in five (and a list in the enumerated section) uses a CHALLENGE that lacks some of the flags the client asked for (SIGN, SEAL, KEY_EXCH, ALWAYS_SIGN, ESS, 128 ...): the client may refuse it early, but must not release credentials without the proof. Each reply is classified by the reference server itself (lenient decode + unseal with the true keys): if it still yields key + 1 under a valid signature nothing is asserted; otherwise Connector::connect must return Err and the server, reading to EOF, must receive zero application bytes after the AUTHENTICATE message. For the honest reply the next message must be a TSRequest whose authInfo unseals. Non-trivial = the handshake reached the final round and the reply is not 'still honest'; distinct by hash of the case.";
 
 #[derive(Serialize, Deserialize, Hash, Clone, Debug)]
 pub struct Case {
@@ -42,6 +42,8 @@ pub fn run(c: &Case) -> Outcome {
         FinalReply::RandomToken(_) => "random-token",
         FinalReply::PlainSuffix(_) | FinalReply::PlainPrefix(_) => "padded-value",
         FinalReply::ConstChecksum(_) | FinalReply::RelayedXor => "dummy-signature",
+        FinalReply::PlainXor(_) => "xor-pattern",
+        FinalReply::PlainTruncated(_) | FinalReply::NoCarryPlusOne => "padded-value",
     };
     let std_flags = c.base.challenge.flags & ntlm::MANDATORY == ntlm::MANDATORY;
     if !std_flags {
@@ -128,6 +130,7 @@ fn gen_base(s: &mut Src, identity: Option<u8>) -> C17Case {
         blank_creds: bits & 0x84 == 0x84,
         nla: true,
         check_certificate: false,
+        setter_order: 0,
     };
     let identity = identity.unwrap_or_else(|| s.below(4) as u8);
     // certificate checking on, against the CA-signed identity (the TLS layer accepts it; the CredSSP binding must still be checked)
@@ -144,12 +147,25 @@ fn gen_base(s: &mut Src, identity: Option<u8>) -> C17Case {
             }
         }
     }
-    C17Case { cfg, identity, challenge, user_id: 1004, previous: None }
+    C17Case { cfg, identity, challenge, user_id: 1004, previous: None, select_ssl: false }
 }
 
 pub fn decode(s: &mut Src) -> Case {
     // the reply strategy is decoded first so that short choice strings still vary it
-    let reply = match s.below(24) {
+    let reply = match s.below(28) {
+        26 => FinalReply::PlainTruncated(s.pick(&[0u16, 1, 2, 100, 0xFFFF, 0xFFFE, 7])),
+        27 => FinalReply::NoCarryPlusOne,
+        24 | 25 => {
+            // the same mask at two positions a multiple of 1, 2, 4 or 8 bytes apart; or an arbitrary pair
+            let a = s.u16();
+            let mask = s.pick(&[1u8, 0x80, 0xFF, 0x10, 0x55]);
+            let d = s.pick(&[1u16, 2, 4, 8, 16, 32, 64, 3]);
+            if s.bool() {
+                FinalReply::PlainXor(vec![(a, mask), (a.wrapping_add(d), mask)])
+            } else {
+                FinalReply::PlainXor(vec![(a, mask), (s.u16(), s.u8() | 1)])
+            }
+        }
         20 => {
             let n = 1 + s.below(4);
             let mut e = s.bytes(n);
@@ -219,6 +235,21 @@ fn sweep(tier: Tier, part: usize, parts: usize) -> impl Iterator<Item = Case> {
         for k in [0u32, 2, 3, 255, 256, 257, 65535, 65536, 0x0100_0000, 0xFFFF_FFFF] {
             v.push(Case { base: base.clone(), reply: FinalReply::Offset(k) });
         }
+        // equal differences at two places (they cancel under xor-folding, under per-word sums ...), and single ones
+        for d in [1u16, 2, 3, 4, 8, 12, 16, 32, 64, 128] {
+            for mask in [0x01u8, 0x80, 0xFF] {
+                for start in [0u16, 1, 5, 33] {
+                    v.push(Case { base: base.clone(), reply: FinalReply::PlainXor(vec![(start, mask), (start + d, mask)]) });
+                }
+            }
+        }
+        for pos in 0..40u16 {
+            v.push(Case { base: base.clone(), reply: FinalReply::PlainXor(vec![(pos * 7, 0x40)]) });
+        }
+        for n in [0u16, 1, 2, 3, 16, 100, 0xFFFF, 0xFFFE] {
+            v.push(Case { base: base.clone(), reply: FinalReply::PlainTruncated(n) });
+        }
+        v.push(Case { base: base.clone(), reply: FinalReply::NoCarryPlusOne });
         for r in [FinalReply::PlainSuffix(vec![1]), FinalReply::PlainSuffix(vec![0, 1]), FinalReply::PlainSuffix(vec![0xFF; 4]), FinalReply::PlainSuffix(vec![0]), FinalReply::PlainPrefix(vec![0]), FinalReply::PlainPrefix(vec![1, 0]), FinalReply::ConstChecksum(0), FinalReply::ConstChecksum(0xFF), FinalReply::RelayedXor] {
             v.push(Case { base: base.clone(), reply: r.clone() });
             // the same replies after a CHALLENGE that lacks one of the requested flags
